@@ -473,6 +473,23 @@ func (c *coord) checkOversized(r *engine.Report) {
 		maxP := engine.Sym(gfi.FieldPath(opt, ret, c.fMaxProc))
 		ser := engine.Sym(gfi.FieldPath(tt, ret, c.fSeries))
 		tot := engine.Sym(gfi.FieldPath(tt, ret, c.fTotal))
+		// a predicate written with several returns: its result as a formula over the caller's terms
+		nRet := 0
+		for _, b := range g.Blocks {
+			if _, ok := b.Instrs[len(b.Instrs)-1].(*ssa.Return); ok && b != g.Recover {
+				nRet++
+			}
+		}
+		if nRet > 1 {
+			if ex := fi.Deep().Cond(pred); ex != nil && !(ex.Op == 'a') {
+				res = ex
+				copt := c.optText(fn)
+				maxH = engine.Sym(fi.FieldPath(copt, pred, c.fMaxHead))
+				maxP = engine.Sym(fi.FieldPath(copt, pred, c.fMaxProc))
+				ser = engine.Sym(fi.FieldPath(entry, pred, c.fSeries))
+				tot = engine.Sym(fi.FieldPath(entry, pred, c.fTotal))
+			}
+		}
 		headBig := engine.And(engine.Not(engine.EqIntAtom(maxH, engine.Int(0))), engine.LtAtom(maxH, ser))
 		procBig := engine.LtAtom(maxP, tot)
 		okH, _ := engine.Implies(headBig, res, engine.LinAxioms(append(res.Atoms(), headBig.Atoms()...))...)
